@@ -71,6 +71,10 @@ def _registration_callees(program, py: str):
     if helper is None:
         return {py}, (py if py in int_fns else None)
     callees = {dotted_name(c.func) for c in ast.walk(helper) if isinstance(c, ast.Call) and (dotted_name(c.func) or "").split(".")[0] in ("math", "numpy", "np")}
+    callees -= {"math.isinf", "math.isnan", "math.isfinite", "numpy.isnan", "numpy.isinf"}  # guards, not the computation
+    # Python's built-in round (one argument: half to even, like numpy.round)
+    if any(isinstance(c, ast.Call) and isinstance(c.func, ast.Name) and c.func.id == "round" and len(c.args) == 1 for c in ast.walk(helper)):
+        callees.add("round")
     parents = {}
     for n in ast.walk(helper):
         for ch in ast.iter_child_nodes(n):
@@ -181,7 +185,9 @@ def _sql_s1(program, res, dialect: sqlexpr.Dialect, rows, registered, tmeth):
                 res.fail("C05-S1", f"{dialect.module.name}:{model}", f"catalog:{op}:formatter",
                          f"{inst} resolves to a formatter entry `{unparse(info[1])}` that is not a function", dialect.module.relpath, 0)
             else:
-                probs = _template_vocab_problems(fn, dialect, vocab, registered_override={k for k, v_ in registered.items() if v_ in facts.SQLITE_REGISTRATION_MEANING.get(k, set())} if model == "SQLiteModel" else None)
+                probs = _template_vocab_problems(fn, dialect, vocab, registered_override={k for k, v_ in registered.items() if k in facts.SQLITE_REGISTRATION_MEANING
+                                                                                            and _registration_callees(program, v_)[0] and _registration_callees(program, v_)[0] <= facts.SQLITE_REGISTRATION_MEANING[k]}
+                                                 if model == "SQLiteModel" else None)
                 cavs = facts.SQL_TEMPLATE_CAVEATS.get((model, op))
                 if cavs is not None and not probs:
                     import re as _re
@@ -489,23 +495,46 @@ def _refills_missing(program, entry) -> bool:
     return False
 
 
-def sql_floor_division_rule(program, res, rule="C05-S1"):
-    """`//` is a derived expression: the floor of a division.  The division it builds on has to be the float division (`%/%`, float_divide): SQL's `/`
-    between two integer columns has already truncated towards zero before the FLOOR sees it"""
-    f = program.module("sql_model").functions.get("_db_int_divide_expr")
-    if f is None:
-        raise AnalysisError("anchor vanished: sql_model._db_int_divide_expr")
-    res.analysed(f)
-    plain = [b for b in ast.walk(f.node) if isinstance(b, ast.BinOp) and isinstance(b.op, ast.Div) and "expression.args" in unparse(b)]
-    floaty = [c for c in ast.walk(f.node) if isinstance(c, ast.Call) and isinstance(c.func, ast.Attribute) and c.func.attr in ("float_divide",)]
-    if plain:
-        res.fail_at(rule, f, "floor-division-of-truncated-quotient",
-                    f"`{unparse(plain[0])}` builds `//` on the SQL operator `/`: for integer operands the quotient is truncated towards zero before FLOOR — "
-                    f"(7, -7, -1) // (2, 2, 3) gives 3, -3, 0 on SQLite (and in the PostgreSQL text) and 3, -4, -1 on Pandas and Polars", plain[0])
-    elif floaty:
-        res.ok(rule, "`//` is the floor of the float division")
-    else:
-        raise AnalysisError("_db_int_divide_expr: neither `/` nor float_divide found")
+def sql_floor_division_rule(program, res, rule="C05-S1", dialects=(("SQLite", "SQLiteModel"), ("PostgreSQL", "PostgreSQLModel"), ("SparkSQL", "SparkSQLModel"))):
+    """`//` is the floor of a division.  SQL's `/` between two integer columns has already truncated towards zero before a FLOOR sees it, so in
+    every template of `//` the quotient under FLOOR has to be a float division (the divisor cast to the dialect's float type or multiplied by a float
+    constant) — or the template computes the integer case exactly and says so with a typeof() guard.  A float *literal* multiplier is a DECIMAL in
+    Spark (the result then comes back as decimal.Decimal), which is why the generic template casts"""
+    import re as _re
+    n = 0
+    for mod, cls in dialects:
+        d_ = sqlexpr.Dialect(program, mod, cls)
+        kind, info = d_.resolve("//")
+        if kind != "formatter":
+            res.fail(rule, f"{mod}:{cls}", f"floor-division-native:{cls}", f"{cls}: `//` has no formatter and is emitted as `{info}`", f"data_algebra/{mod}.py", 0)
+            continue
+        fn = d_.formatter_func(info)
+        res.analysed(fn) if hasattr(fn, "where") else None
+        for t in sqlexpr.fold_function(fn):
+            text = sqlexpr.render(t)
+            n += 1
+            floors = [m.end() for m in _re.finditer(r"FLOOR\(", text)]
+            if not floors:
+                res.abstain(rule, f"{cls}: `//` template `{text[:60]}`", "no FLOOR found")
+                continue
+            bad = None
+            for st in floors:
+                seg = text[st:]
+                slash = seg.find("/")
+                after = seg[slash + 1:].lstrip() if slash >= 0 else ""
+                if not (after.startswith("CAST(") or after.startswith("(1.0 *") or after.startswith("1.0 *")):
+                    bad = seg[:60]
+            if bad is not None:
+                res.fail(rule, f"{mod}:{getattr(fn, 'name', '//')}", f"floor-division-of-truncated-quotient:{cls}",
+                         f"{cls}: `//` is emitted as `{text[:80]}`: the quotient under FLOOR is SQL's `/`, which truncates towards zero for integer operands — "
+                         f"(7, -7, -1) // (2, 2, 3) gives 3, -3, 0 where Pandas and Polars give 3, -4, -1", f"data_algebra/{mod}.py", getattr(fn, "lineno", 0))
+            elif cls == "SparkSQLModel" and "1.0 *" in text:
+                res.fail(rule, f"{mod}:{getattr(fn, 'name', '//')}", f"floor-division-decimal-literal:{cls}",
+                         f"{cls}: `{text[:80]}` multiplies by the literal 1.0, a DECIMAL(2,1) in Spark: the quotient and its FLOOR are DECIMAL and come back as decimal.Decimal "
+                         f"objects (arithmetic on the column then raises)", f"data_algebra/{mod}.py", getattr(fn, "lineno", 0))
+            else:
+                res.ok(rule, f"{cls}: `//` floors a float quotient (`{text[:50]}`)")
+    res.expect_count(rule, "templates of `//` examined", n, 3)
 
 
 def sql_division_rule(program, res, dialect, rule):
